@@ -53,6 +53,9 @@ func c11Build(r *rand.Rand, dir string) *c11Env {
 	o.PFill = 0.85
 	o.Depth = 3
 	o.Text = func(r *rand.Rand) string { return gen.ValidUTF8Any(r, 8) }
+	if r.Intn(3) == 0 {
+		o.MaxList = 14 // lists long enough to cross the small-size thresholds of sort/search shortcuts
+	}
 	n := 3 + r.Intn(6)
 	ids := make([]string, n)
 	for i := range ids {
